@@ -112,6 +112,8 @@ def _worker(job):
             return dict(label=inst.get("label"), inst=inst, ok=False, crashed=traceback.format_exc()[-3000:], wall_s=time.time() - t0,
                         paths=0, obligations=0, proved=0, by_normal_form=0, stats={}, witnessed={}, unknown=[], violations=[], exceptions=[],
                         violations_full=[], exceptions_full=[], samples=[], inconclusive="concrete run crashed: %r" % (ex,))
+    if os.environ.get("VERIF_NO_ISOLATE") != "1" and not (opts or {}).get("_isolated"):
+        return _isolated(job, t0)
     import signal
 
     def _alarm(signum, frame):
@@ -135,7 +137,7 @@ def _worker(job):
         harness = mod.make_harness(inst)
         kw = dict(mod.RUN_OPTS) if hasattr(mod, "RUN_OPTS") else {}
         kw.update(inst.get("run_opts", {}))
-        kw.update(opts or {})
+        kw.update({k_: v_ for k_, v_ in (opts or {}).items() if k_ != "_isolated"})
         rep = engine.run_symbolic(harness, label=inst["label"], **kw)
         d = rep.to_dict()
         d["samples"] = rep.samples
@@ -150,6 +152,67 @@ def _worker(job):
         return dict(label=inst.get("label"), inst=inst, ok=False, crashed=traceback.format_exc()[-3000:], wall_s=time.time() - t0,
                     paths=0, obligations=0, proved=0, by_normal_form=0, stats={}, witnessed={}, unknown=[], violations=[], exceptions=[],
                     violations_full=[], exceptions_full=[], samples=[], inconclusive="worker crashed: %r" % (ex,))
+
+
+def _isolated(job, t0):
+    """run one symbolic instance in a forked child of the pool worker: a native crash (z3 segfault, hard out-of-memory kill) or a native hang then costs this
+    instance (reported as inconclusive) instead of the whole pool - multiprocessing.Pool never notices a worker that died and would wait for its result forever"""
+    import pickle
+    import select
+    import signal
+    modname, inst, opts = job
+    limit = int(inst.get("limit_s", os.environ.get("VERIF_INSTANCE_LIMIT", "900")))
+    o2 = dict(opts or {})
+    o2["_isolated"] = True
+    r, w = os.pipe()
+    pid = os.fork()
+    if pid == 0:
+        code = 0
+        try:
+            os.close(r)
+            res = _worker((modname, inst, o2))
+            with os.fdopen(w, "wb") as f:
+                f.write(pickle.dumps(res))
+        except BaseException:  # noqa
+            code = 1
+        finally:
+            os._exit(code)
+    os.close(w)
+    chunks = []
+    deadline = time.time() + limit + 90
+    hung = False
+    with os.fdopen(r, "rb") as f:
+        while True:
+            left = deadline - time.time()
+            if left <= 0:
+                hung = True
+                break
+            ready, _, _ = select.select([f], [], [], min(left, 5.0))
+            if ready:
+                b = os.read(f.fileno(), 1 << 20)
+                if not b:
+                    break
+                chunks.append(b)
+    if hung:
+        try:
+            os.kill(pid, signal.SIGKILL)
+        except OSError:
+            pass
+    try:
+        _, status = os.waitpid(pid, 0)
+    except OSError:
+        status = -1
+    data = b"".join(chunks)
+    if data and not hung:
+        try:
+            return pickle.loads(data)
+        except Exception:  # noqa
+            pass
+    why = "instance exceeded its wall-clock limit inside native code and was killed" if hung else \
+        "instance process died (wait status %s: native crash in the solver or killed by the memory limit)" % status
+    return dict(label=inst.get("label"), inst=inst, ok=False, crashed=why, wall_s=time.time() - t0,
+                paths=0, obligations=0, proved=0, by_normal_form=0, stats={}, witnessed={}, unknown=[], violations=[], exceptions=[],
+                violations_full=[], exceptions_full=[], samples=[], inconclusive=why)
 
 
 def _ser_env(env):
